@@ -18,7 +18,7 @@ RULE = ("link-clean programs of sentinel-printing lines with one or two injected
 ASSUMPTIONS = ["the underline is computed as term::decorate_list does: character index into the List event's text"]
 EXHAUSTIVE = {"quick": False, "thorough": False}
 
-PREFIXES = ["", 'Q$="é":', 'Q$="日日日":', "A=1:B=2:", 'MARK9=1:', 'Q$="😀":', "IF Z THEN ", 'Q$="aé":IF Z THEN Q=1:']
+PREFIXES = ["", 'A=&17:', 'A=&7:B=&17:', 'A=&HFF:', 'A=&H1F+&17:', 'Q$="é":', 'Q$="日日日":', "A=1:B=2:", 'MARK9=1:', 'Q$="😀":', "IF Z THEN ", 'Q$="aé":IF Z THEN Q=1:']
 MISSING = [999, 5, 65529, 12345]
 
 
